@@ -2,6 +2,7 @@ package main
 
 import (
 	"fmt"
+	"strings"
 
 	"verif/harness/genrt"
 	"verif/harness/probe"
@@ -734,6 +735,112 @@ func planFor(prop, tier string) (*plan, error) {
 			out = append(out, predCombos(p, base(p, 1))...)
 			return out
 		}
+	case "C12":
+		var ps []*pg.Program
+		shapes := []string{"single", "chain2", "fork", "join", "multi"}
+		if th {
+			shapes = append(shapes, "diamond", "chain3", "indep3", "invoke")
+		}
+		for _, n := range shapes {
+			f := exprConc(pg.Shape(n))
+			for i := range f.Tasks {
+				f.Tasks[i].Ctx = i%2 == 1
+			}
+			ps = append(ps, flowProg(f, "shape:"+n))
+		}
+		// instrumented variants: emitters touch the ran flags and task state
+		for _, n := range []string{"chain2", "fork"} {
+			f := exprConc(pg.Shape(n))
+			f.Emitters = "1"
+			f.Instrument = true
+			for i := range f.Tasks {
+				f.Tasks[i].Instrument = true
+			}
+			ps = append(ps, flowProg(f, "INS:"+n))
+		}
+		for _, f := range pg.WithPredFallback(pg.Shape("chain2"), []string{"shared", "own"}, 1) {
+			ps = append(ps, flowProg(exprConc(f), "PF:chain2"))
+		}
+		for _, f := range pg.WithPredFallback(pg.Shape("fork"), []string{"shared"}, 1) {
+			ps = append(ps, flowProg(exprConc(f), "PF:fork"))
+		}
+		npar := 1
+		if th {
+			npar = 2
+		}
+		for i, par := range pg.Pars(2, false) {
+			if !th && len(par.Items) == 2 && i%3 != 0 {
+				continue
+			}
+			_ = npar
+			for _, coe := range []string{"", "true"} {
+				if coe != "" && par.HasEnd() {
+					continue
+				}
+				q := par.Clone()
+				q.Conc = "expr"
+				q.COE = coe
+				ps = append(ps, parProg(q, "PAR"))
+			}
+		}
+		{
+			q := &pg.Parallel{Items: []pg.Item{{Kind: "task", Err: true, Instrument: true}, {Kind: "task", Ctx: true, Instrument: true}}, Conc: "expr", Emitters: "1", Instrument: true}
+			ps = append(ps, parProg(q, "INS-PAR"))
+		}
+		pl.progs = numIDs(ps)
+		pl.scen = func(p *pg.Program) []genrt.Scenario {
+			var out []genrt.Scenario
+			sc := base(p, 2)
+			sc.COE = true
+			out = append(out, sc)
+			fl := failable(p)
+			all := panickable(p)
+			for i, id := range fl {
+				if i > 1 {
+					break
+				}
+				s1 := withDec(base(p, 2), []string{id}, probe.Fail)
+				s1.COE = true
+				out = append(out, s1)
+				// early return: another function is still running (gated) when this one fails
+				for _, g := range all {
+					if g == id || isPredID(g) {
+						continue
+					}
+					s2 := withDec(withDec(base(p, 2), []string{id}, probe.Fail), []string{g}, probe.Gate)
+					out = append(out, s2)
+					break
+				}
+			}
+			if len(all) > 0 {
+				s3 := withDec(base(p, 2), all[:1], probe.Panic)
+				s3.PanicKind = "error"
+				s3.COE = true
+				out = append(out, s3)
+			}
+			// cancellation from another thread while functions run; cancellation with a function still running
+			s4 := base(p, 2)
+			s4.Cancel = "thread"
+			s4.COE = true
+			if th || jobCount(p, &s4) <= 2 {
+				out = append(out, s4)
+			}
+			for _, g := range all {
+				if isPredID(g) {
+					continue
+				}
+				s5 := withDec(base(p, 2), []string{g}, probe.Gate)
+				s5.Cancel = "thread"
+				out = append(out, s5)
+				break
+			}
+			if p.Fam == "shape:single" || p.Fam == "shape:chain2" {
+				s6 := base(p, 1)
+				s6.Instances = 2
+				out = append(out, s6)
+			}
+			return out
+		}
 	case "C15":
 		var ps []*pg.Program
 		mk := func(p *pg.Program) { p.F.Wrap = true; ps = append(ps, p) }
@@ -900,3 +1007,5 @@ func subsetsInts(n int) [][]int {
 	}
 	return res
 }
+
+func isPredID(id string) bool { return strings.Contains(id, ".p") }
